@@ -781,53 +781,56 @@ func (c *Ctx) ruleKindDispatch(rule string) {
 		return
 	}
 	fk := c.P.FuncKey(f)
-	o := c.P.OriginsOf(f)
 	el := "elem(P:" + f.Params[1].Name() + ")"
 	sec := fnDeser + "#0(" + el + ".Secret)"
-	var verify ssa.CallInstruction
-	for _, ci := range Calls(f) {
-		if c.P.Describe(ci).Name == fnVerify {
-			verify = ci
+	// the signature check of an input, in the validator or in a helper of it that is new on this tree
+	var verifies []ssa.CallInstruction
+	for _, g := range c.OpFuncs(f) {
+		for _, ci := range Calls(g) {
+			if c.P.Describe(ci).Name == fnVerify {
+				verifies = append(verifies, ci)
+			}
 		}
 	}
-	if verify == nil {
+	if len(verifies) == 0 {
 		R.Unresolved(rule, "crypto.Verify call in "+fk, "not found")
 		return
 	}
 	p2pk, _ := c.P.ConstVal("cashu/nuts/nut10", "P2PK")
 	htlcK, _ := c.P.ConstVal("cashu/nuts/nut10", "HTLC")
 	for _, k := range []struct{ name, val, fn string }{{"P2PK", p2pk, fnVerifyP2P}, {"HTLC", htlcK, fnVerifyHTL}} {
-		kindEdges := edgesMatching(o, func(ft *Fact) bool {
-			return ft.Kind == "cmp" && ft.Pos && ft.Op.String() == "==" && exprIs(ft.A, sec+".Kind") && isConst(ft.B, k.val)
-		})
-		if len(kindEdges) == 0 {
-			R.Check(rule, fk, k.name+" inputs dispatched", c.P.Pos(f.Pos()), false, "inputs of kind "+k.name+" are recognised", "no test of the parsed secret's kind against "+k.name)
-			continue
-		}
-		cut := NewCut()
-		for _, e := range edgesMatching(o, func(ft *Fact) bool {
-			return ft.Kind == "errnil" && ft.Pos && isCall(ft.A, k.fn) && exprIs(arg(ft.A, 0), el) && exprIs(arg(ft.A, 1), sec)
-		}) {
-			cut.Edges[e] = true
-		}
-		// stay within the iteration
-		if l := o.Loops.InnermostContaining(verify.Block()); l != nil {
-			for _, lb := range l.Latches {
-				for i, s := range lb.Succs {
-					if s == l.Header {
-						cut.Edges[Edge{lb, i}] = true
-					}
+		// within one iteration the signature check is reached only when the secret did not parse as NUT-10,
+		// is not of this kind, or the kind's lock verifier accepted (input, parsed secret)
+		k := k
+		cd := &Cond{Name: "not a " + k.name + " input, or its lock verifier succeeded", PerIteration: true, Match: func(ft *Fact, _ *Origins) bool {
+			switch {
+			case ft.Kind == "errnil" && !ft.Pos && exprIs(ft.A, fnDeser+"#1("+el+".Secret)"):
+				return true // not a NUT-10 secret: a plain input
+			case ft.Kind == "cmp" && ft.Op.String() == "==" && exprIs(ft.A, sec+".Kind") && ft.B.K == "const":
+				// kind != k: the false edge of the test against k, or the true edge of a test against another kind
+				return (!ft.Pos && isConst(ft.B, k.val)) || (ft.Pos && !isConst(ft.B, k.val))
+			case ft.Kind == "errnil" && ft.Pos && isCall(ft.A, k.fn) && exprIs(arg(ft.A, 0), el) && exprIs(arg(ft.A, 1), sec):
+				return true
+			}
+			return false
+		}}
+		// the kind is tested at all (otherwise "not of this kind" could never be established honestly)
+		tested := false
+		for _, og := range c.OpContexts(f) {
+			for _, e := range og.AllEdges() {
+				ft := og.EdgeFact(e)
+				if ft != nil && ft.Kind == "cmp" && ft.Op.String() == "==" && exprIs(ft.A, sec+".Kind") && isConst(ft.B, k.val) {
+					tested = true
 				}
 			}
 		}
-		ok, why := true, ""
-		for _, e := range kindEdges {
-			if reach, path := Reach(Point{e.To(), 0}, PointOf(verify), cut); reach {
-				ok = false
-				why = "a " + k.name + " input reaches the signature check of the proof without passing its lock verifier: " + c.P.PathString(path)
-			}
+		if !tested {
+			R.Check(rule, fk, k.name+" inputs dispatched", c.P.Pos(f.Pos()), false, "inputs of kind "+k.name+" are recognised", "no test of the parsed secret's kind against "+k.name)
+			continue
 		}
-		R.Check(rule, fk, k.name+" input <= its verifier succeeded", c.P.InstrPos(verify), ok, "an input of kind "+k.name+" is accepted only when "+k.fn+"(input, parsed secret) returned nil", why)
+		for _, v := range verifies {
+			ok, why := c.RequireAt(v, cd)
+			R.Check(rule, fk, k.name+" input <= its verifier succeeded", c.P.InstrPos(v), ok, "an input of kind "+k.name+" is accepted only when "+k.fn+"(input, parsed secret) returned nil", why)
+		}
 	}
-	// the kind test itself is reached for every input that parses: the parse test dominates Verify? (a non-NUT-10 secret is a plain proof)
 }
